@@ -648,6 +648,95 @@ fn repl_k(_case: &Value, inputs: &Value) -> Value {
     json!({"outputs": outs})
 }
 
+// the debugger's stepping loop, as `cldb` drives it, on (program, args); returns the rows and checks them against clvmr
+fn cldb_trace_k(_case: &Value, inputs: &Value) -> Value {
+    use chialisp::classic::clvm_tools::clvmc::compile_clvm_text_maybe_opt;
+    use chialisp::classic::clvm_tools::stages::stage_0::TRunProgram;
+    use chialisp::compiler::cldb::{CldbNoOverride, CldbRun, CldbRunEnv};
+    use chialisp::compiler::clvm::{convert_from_clvm_rs, start_step};
+    use chialisp::compiler::compiler::DefaultCompilerOpts;
+    use chialisp::compiler::comptypes::CompilerOpts;
+    use chialisp::compiler::prims::prim_map;
+    use chialisp::compiler::srcloc::Srcloc;
+    use std::collections::HashMap;
+    let mut a = Allocator::new();
+    let prog = if let Some(src) = inputs.get("source").and_then(|v| v.as_str()) {
+        let opts: Rc<dyn CompilerOpts> = Rc::new(DefaultCompilerOpts::new("*t*"));
+        let mut syms = HashMap::new();
+        match compile_clvm_text_maybe_opt(&mut a, inputs["optimize"].as_bool().unwrap_or(false), opts, &mut syms, src, "*t*", true) {
+            Ok(p) => p,
+            Err(e) => return json!({"compile_err": format!("{:?}", e)}),
+        }
+    } else {
+        json_to_tree(&mut a, &inputs["prog"])
+    };
+    let args = json_to_tree(&mut a, &inputs["args"]);
+    let runner = Rc::new(DefaultProgramRunner::new());
+    let consensus = match runner.run_program(&mut a, prog, args, None) {
+        Ok(r) => json!({"ok": tree_to_json(&a, r.1)}),
+        Err(_) => json!({"err": true}),
+    };
+    let rp = convert_from_clvm_rs(&mut a, Srcloc::start("*t*"), prog).unwrap();
+    let ra = convert_from_clvm_rs(&mut a, Srcloc::start("*t*"), args).unwrap();
+    let env = Box::new(CldbRunEnv::new(None, Rc::new(vec![]), Box::new(CldbNoOverride::new())));
+    let mut run = CldbRun::new(runner.clone(), prim_map(), env, start_step(rp, ra));
+    let mut rows = Vec::new();
+    let mut trace: Vec<Value> = Vec::new();
+    let mut n = 0;
+    while !run.is_ended() && n < 5000 {
+        n += 1;
+        let emitted = run.step(&mut a);
+        {
+            use chialisp::compiler::clvm::RunStep;
+            let d = match run.current_step() {
+                RunStep::Done(_, x) => format!("Done {}", x),
+                RunStep::OpResult(_, x, _) => format!("OpResult {}", x),
+                RunStep::Op(h, _, t, Some(r), _) => format!("Op {} tail={} rest={}", h, t, r.len()),
+                RunStep::Op(h, _, t, None, _) => format!("OpReady {} tail={}", h, t),
+                RunStep::Step(s, _, _) => format!("Step {}", s),
+            };
+            trace.push(json!(format!("{}{}", if emitted.is_some() { "ROW " } else { "" }, d)));
+        }
+        if let Some(r) = emitted {
+            let m: serde_json::Map<String, Value> = r.into_iter().map(|(k, v)| (k, json!(v))).collect();
+            rows.push(Value::Object(m));
+        }
+    }
+    let fin = run.final_result().map(|x| x.to_string());
+    // re-read every row that reports an operator, its arguments and a value, and ask clvmr whether it is true
+    let mut false_rows = Vec::new();
+    let mut mixed_rows = Vec::new();
+    for (k, r) in rows.iter().enumerate() {
+        let (op, ar, va) = (r.get("Operator").and_then(|v| v.as_str()), r.get("Arguments").and_then(|v| v.as_str()), r.get("Value").and_then(|v| v.as_str()));
+        if let (Some(op), Some(ar), Some(va)) = (op, ar, va) {
+            if op == "2" { mixed_rows.push(k); continue; }
+            let mut b = Allocator::new();
+            let parsed = (chialisp::classic::clvm_tools::binutils::assemble(&mut b, op), chialisp::classic::clvm_tools::binutils::assemble(&mut b, ar), chialisp::classic::clvm_tools::binutils::assemble(&mut b, va));
+            if let (Ok(o), Ok(mut al), Ok(v)) = parsed {
+                let mut items = Vec::new();
+                while let SExp::Pair(f, rest) = b.sexp(al) { items.push(f); al = rest; }
+                let mut call = b.nil();
+                let q = b.one();
+                for it in items.iter().rev() { let qa = b.new_pair(q, *it).unwrap(); call = b.new_pair(qa, call).unwrap(); }
+                let prog2 = b.new_pair(o, call).unwrap();
+                let nil = b.nil();
+                match runner.run_program(&mut b, prog2, nil, None) {
+                    Ok(res) => { if tree_to_json(&b, res.1) != tree_to_json(&b, v) { false_rows.push(k); } }
+                    Err(_) => false_rows.push(k),
+                }
+            }
+        }
+    }
+    let final_matches = match (&consensus.get("ok"), run.final_result()) {
+        (Some(c), Some(f)) => {
+            let mut b = Allocator::new();
+            match chialisp::compiler::clvm::convert_to_clvm_rs(&mut b, f) { Ok(n) => json!(tree_to_json(&b, n) == **c), Err(_) => json!(false) }
+        }
+        _ => Value::Null,
+    };
+    json!({"consensus": consensus, "rows": rows, "final": fin, "ended": run.is_ended(), "trace": trace, "false_rows": false_rows, "mixed_rows": mixed_rows, "final_matches": final_matches})
+}
+
 // the unused-argument check through its public entry point
 fn check_unused_k(_case: &Value, inputs: &Value) -> Value {
     use chialisp::classic::clvm_tools::debug::check_unused;
@@ -947,6 +1036,7 @@ pub fn dispatch(kernel: &str, case: &Value, inputs: &Value) -> Value {
         "compile_text" => compile_text_k(case, inputs),
         "check_unused" => check_unused_k(case, inputs),
         "repl" => repl_k(case, inputs),
+        "cldb_trace" => cldb_trace_k(case, inputs),
         "read_new_file" => read_new_file_k(case, inputs),
         "atomic_write" => atomic_write_k(case, inputs),
         "intmode" => intmode_k(case, inputs),
